@@ -159,6 +159,29 @@ func genC15(seed int64, tier string) []caseOut {
 					payload = []byte(fmt.Sprintf(`{"n":%d,"s":"%s"}`, r.Intn(1000), randID(r, size%40)))
 				}
 				compact, err := signutil.SignPayload(payload, sg)
+				if err == nil && size > 1 {
+					// the detached-payload option: the payload the verifier supplies is the one that counts
+					other := append([]byte{}, payload...)
+					other[len(other)-1] ^= 1
+					parts := strings.Split(compact, ".")
+					detached := parts[0] + ".." + parts[2]
+					optCase := func(kind int, c string, expect bool, opts ...jwsutil.ParseOpt) {
+						res, e := jwsutil.VerifyJWS(c, sg.jwk, opts...)
+						payOK := e == nil && string(res.Payload) == string(payload)
+						hh := sha256.Sum256([]byte(fmt.Sprint(kind, c)))
+						out = append(out, caseOut{
+							Coq:    fmt.Sprintf("(mk_c15opt %d%%nat %s %s %s)", kind, cBool(e == nil), cBool(payOK), cBool(expect)),
+							Rec:    map[string]interface{}{"jwk": sg.jwk, "jws": c, "option_kind": kind, "impl_verified": e == nil, "expect_verified": expect},
+							Label:  fmt.Sprintf("%s:detached-option-%d", kind2label(kind), kind),
+							NonTri: fmt.Sprintf("%x", hh[:8]),
+						})
+					}
+					optCase(1, compact, false, jwsutil.WithJWSDetachedPayload(other))
+					optCase(2, detached, true, jwsutil.WithJWSDetachedPayload(payload))
+					optCase(3, detached, false, jwsutil.WithJWSDetachedPayload(other))
+					optCase(4, detached, false)
+					optCase(5, compact, true, jwsutil.WithJWSDetachedPayload(payload))
+				}
 				if err != nil {
 					add(kind+":sign-failed", sg.jwk, "", true, string(payload))
 					continue
@@ -351,12 +374,61 @@ func genC16(seed int64, tier string) []caseOut {
 			Rec: rec, Label: label, NonTri: fmt.Sprintf("%x", h[:8]),
 		})
 	}
+	// verification first under the genuine JWK, then - same process, same x - under JWKs that are
+	// not valid: what was accepted once must not make the invalid ones acceptable
+	addSeq := func(kind string, k *keyPair) {
+		_, w, _, _ := curveOf(kind)
+		j, err := pubkey.GetPublicKeyJWK(k.public())
+		if err != nil {
+			return
+		}
+		msg := []byte("message " + kind)
+		sig := k.sign(r, msg)
+		first := jwsutil.VerifySignature(j, sig, msg) == nil
+		yb, _ := b64dec(j.Y)
+		var tamp []string
+		var trecs []interface{}
+		for _, tc := range []struct {
+			l string
+			f func(t *jws.JWK)
+		}{
+			{"y-off-curve", func(t *jws.JWK) { c := append([]byte{}, yb...); c[len(c)-1] ^= 1; t.Y = b64(c) }},
+			{"y-zero-prefixed", func(t *jws.JWK) { t.Y = b64(append([]byte{0}, yb...)) }},
+			{"y-truncated", func(t *jws.JWK) { t.Y = b64(yb[:len(yb)-1]) }},
+			{"y-missing", func(t *jws.JWK) { t.Y = "" }},
+		} {
+			t := *j
+			tc.f(&t)
+			accepted := jwsutil.VerifySignature(&t, sig, msg) == nil
+			tamp = append(tamp, fmt.Sprintf("(%s, %s)", coqJWK(&t), cBool(accepted)))
+			trecs = append(trecs, map[string]interface{}{"tamper": tc.l + "-after-genuine-verification", "jwk": t, "impl_accepted": accepted})
+		}
+		h := sha256.Sum256([]byte("seq" + kind + k.ec.X.String()))
+		out = append(out, caseOut{
+			Coq:   fmt.Sprintf("(mk_c16ec %s %s %s (Some %s) %s %d%%nat %s)", cStr(kind), cBig(k.ec.X), cBig(k.ec.Y), coqJWK(j), cBool(first), w, cList(tamp)),
+			Rec:   map[string]interface{}{"kind": kind, "genuine_verified": first, "tampered": trecs},
+			Label: kind + ":verify-genuine-then-invalid", NonTri: fmt.Sprintf("%x", h[:8]),
+		})
+	}
 	for _, kind := range []string{"P-256", "P-384", "P-521", "secp256k1"} {
 		curve, w, _, _ := curveOf(kind)
 		// random keys
 		for i := 0; i < n; i++ {
 			k := genKey(r, kind)
 			addEC(kind+":random", kind, k.ec.X, k.ec.Y)
+			if i < 2 {
+				addSeq(kind, k)
+			}
+		}
+		if kind == "secp256k1" {
+			// coordinates between the group order and the field prime are coordinates like any other
+			x := new(big.Int).Set(curve.Params().N)
+			for found := 0; found < 3 && x.Cmp(curve.Params().P) < 0; x.Add(x, big.NewInt(1)) {
+				if y, ok := pointWithX(kind, x); ok && curve.IsOnCurve(x, y) {
+					addEC(kind+":x-at-least-group-order", kind, new(big.Int).Set(x), y)
+					found++
+				}
+			}
 		}
 		// small x: many leading zero bytes in X; and scan for Y with leading zero byte(s)
 		foundY := 0
@@ -425,4 +497,8 @@ func genC16(seed int64, tier string) []caseOut {
 func init() {
 	generators["C15"] = generator{"c15case", "judge_c15", jwsImports, genC15}
 	generators["C16"] = generator{"c16case", "judge_c16", jwsImports, genC16}
+}
+
+func kind2label(k int) string {
+	return []string{"", "other-payload-supplied", "detached-with-payload", "detached-with-other-payload", "detached-without-payload", "same-payload-supplied"}[k]
 }
